@@ -120,10 +120,13 @@ def dedup_clauses(ctx):
                                        '%s.get(%s)' % (var, vals[0].args[0].generators[0].target.id))
         run.check(ok, 'DED', where(repo, loop), d.qualname, 'key = tuple(row[k] for k in pk)',
                   'the key is not the tuple of all primary-key values of the row')
-        sv = facts.values_of(seen)
+        created = [n for n in own_nodes(d.node) if isinstance(n, ast.Assign) and pseudo(n.targets[0]) == seen
+                   and isinstance(n.value, (ast.Call, ast.Set, ast.Dict, ast.List)) and not names_in(n.value) - {'set', 'dict', 'list'}]
         inloop = [n for n in ast.walk(loop) if isinstance(n, ast.Assign) and pseudo(n.targets[0]) == seen]
-        run.check(len(sv) >= 1 and not inloop, 'DED', where(repo, loop), d.qualname, 'seen set created once, outside the loop',
-                  'the set of seen keys is reset while iterating')
+        run.check(len(created) == 1 and not inloop and seen not in d.all_params, 'DED', where(repo, loop), d.qualname,
+                  'seen set created empty, once per resource, before the row loop',
+                  'the set of seen keys is not a fresh, empty set for each resource (reset while iterating, or shared between '
+                  'resources: a key seen in an earlier resource would suppress the first row of that key in a later one)')
 
 
 def unpivot_clauses(ctx):
@@ -211,7 +214,12 @@ def check(ctx):
     from rules import independence
     independence.r28_functions(ctx, [('dataflows.processors.filter_rows:process_resource', {}),
                                      ('dataflows.processors.unpivot:unpivot_rows', {}),
-                                     ('dataflows.processors.deduplicate:deduper', {'keys': 'the set of primary keys seen so far'})])
+                                     ('dataflows.processors.deduplicate:deduper', {'keys': 'the set of primary keys seen so far'}),
+                                     ('dataflows.processors.deduplicate:deduplicate.func', {}),
+                                     ('dataflows.processors.filter_rows:filter_rows.func', {}),
+                                     ('dataflows.processors.unpivot:unpivot.func',
+                                      {'config': 'per-resource configuration built in the package phase', 'fields': 'schema field list being rebuilt',
+                                       'fields_to_pivot': 'fields matched by the current specification entry', 'f': 'comprehension variable'})])
     coupling.r11_function_steps(ctx, [ctx.repo.func('dataflows.processors.unpivot:unpivot.func')])
     steps = [ctx.repo.func('dataflows.processors.%s:%s.func' % (n, n)) for n in ('filter_rows', 'deduplicate', 'unpivot')]
     stream.r6_identity(ctx, steps)
